@@ -1,6 +1,6 @@
 (* Wrap/GenWrapRepaired.v - the forwarding variant of wrap_generator / wrap_async_generator
    (fwd = true in Wrap/GenWrap.v): the repair of "throw()/close() are not forwarded".
-   This is NOT what /repo contains while `repo_forwards = false`.
+   This IS what /repo contains since commit 767d84e (`repo_forwards = true`).
 
        def wrapper(ARGS):
            g = func(ARGS)
@@ -48,6 +48,14 @@ Lemma repaired_on_witnesses :
   /\ erase_obs (repaired_observe KAsync wit_catch 0 [OpNext; OpThrow ValueErr])
      = plain_observe KAsync wit_catch 0 [OpNext; OpThrow ValueErr].
 Proof. repeat split; vm_compute; reflexivity. Qed.
+
+(* the return value is handed on (44481f3) - stated for the variant /repo contains *)
+Lemma return_value_kept_current :
+  erase_obs (wrapped_observe KGen wit_ret 0 [OpNext; OpNext])
+  = ([([EIn (SendV 0)], OYield 1); ([EIn (SendV 0)], OStop 7)], [])
+  /\ plain_observe KGen wit_ret 0 [OpNext; OpNext]
+  = ([([EIn (SendV 0)], OYield 1); ([EIn (SendV 0)], OStop 7)], []).
+Proof. split; vm_compute; reflexivity. Qed.
 
 (* the residual difference, outside the close contract: finalisation of a stubborn body *)
 Lemma repaired_residual :
